@@ -1,6 +1,8 @@
 package main
 
 import (
+	"go/types"
+	"strings"
 	"fmt"
 	"go/token"
 	"sort"
@@ -143,6 +145,7 @@ func (ex *Exec) loopArrive(fr *Frame, from, head *ssa.BasicBlock, li *loopInfo) 
 		e := ex.envFor(fr, nil)
 		e.loopOld = fr.loopOld[head.Index] // nil while the entry obligations are evaluated: loopentry(e) is e itself there
 		e.inLoop = true
+		e.loopHead = li
 		return e
 	}
 	if back && fr.cut[head.Index] {
@@ -194,6 +197,20 @@ func (ex *Exec) loopArrive(fr *Frame, from, head *ssa.BasicBlock, li *loopInfo) 
 				// go/ssa lowers `for i := range s` to a hidden counter that starts at -1 and is only ever incremented
 				if sc, ok := ex.st.cells[c].(Scalar); ok && sc.T != nil {
 					ex.assume(ts.Le(ts.NumLit(bigInt(-1), sc.T.S), sc.T, true))
+				}
+			} else if !ex.bv && ex.monotoneCounter(fr, c, li) {
+				// an integer local whose only assignments inside the loop add a non-negative constant to it never drops below
+				// its value at loop entry (what the explicit form `for i := k; ...; i++` of a range loop needs for its index)
+				pre, okp := preLoop.cells[c].(Scalar)
+				cur, okc := ex.st.cells[c].(Scalar)
+				if okp && okc && cur.T != nil && cur.T.S == SInt {
+					pt := pre.T
+					if pt == nil && pre.Const != nil {
+						pt = ts.IntLit(pre.Const)
+					}
+					if pt != nil && pt.S == SInt {
+						ex.assume(ts.Le(pt, cur.T, true))
+					}
 				}
 			}
 		}
@@ -435,4 +452,174 @@ func (ex *Exec) loopModifies(fr *Frame, spec *LoopSpec) []*Clause {
 		return ex.contract.Modifies
 	}
 	return nil
+}
+
+
+// monotoneCounter: c is an integer local of fr's function and every store to it inside the loop has the form c = c + k
+// with a constant k >= 0.
+func (ex *Exec) monotoneCounter(fr *Frame, c *Cell, li *loopInfo) bool {
+	if c.Typ == nil || !isInteger(c.Typ) {
+		return false
+	}
+	var alloc *ssa.Alloc
+	for v, r := range fr.regs {
+		if cp, ok := r.(CellPtr); ok && cp.C == c {
+			if a, isA := v.(*ssa.Alloc); isA {
+				alloc = a
+			}
+		}
+	}
+	if alloc == nil || alloc.Referrers() == nil {
+		return false
+	}
+	stores := 0
+	for _, r := range *alloc.Referrers() {
+		st, ok := r.(*ssa.Store)
+		if !ok {
+			switch x := r.(type) {
+			case *ssa.UnOp, *ssa.DebugRef:
+				_ = x
+				continue
+			}
+			return false // address taken / captured
+		}
+		if st.Addr != alloc {
+			return false
+		}
+		if !li.body[st.Block().Index] {
+			continue
+		}
+		stores++
+		bo, ok := st.Val.(*ssa.BinOp)
+		if !ok || bo.Op != token.ADD {
+			return false
+		}
+		ld, okl := bo.X.(*ssa.UnOp)
+		k, okk := bo.Y.(*ssa.Const)
+		if !okl || !okk {
+			ld, okl = bo.Y.(*ssa.UnOp)
+			k, okk = bo.X.(*ssa.Const)
+		}
+		if !okl || !okk || ld.X != alloc || k.Value == nil || k.Int64() < 0 {
+			return false
+		}
+	}
+	return stores > 0
+}
+
+
+// loopFormAlias: `for i := range s` and `for i := 0; i < len(s); i++` are the same loop. A clause written for one form
+// names the counter of the other:  rangeindex (hidden counter of the range form, index of the last element processed)
+// is  i - 1  of the explicit form; the explicit counter i is  rangeindex + 1.
+func (ex *Exec) loopFormAlias(env *Env, name string) (Val, bool) {
+	fr, li := env.fr, env.loopHead
+	if fr == nil || li == nil || ex.bv {
+		return nil, false
+	}
+	base := name
+	if i := strings.Index(name, "#"); i > 0 {
+		base = name[:i]
+	}
+	// cells written in this loop, by allocation
+	var counters []*Cell
+	var rangeCell *Cell
+	for v, r := range fr.regs {
+		cp, ok := r.(CellPtr)
+		a, isA := v.(*ssa.Alloc)
+		if !ok || !isA {
+			continue
+		}
+		if _, live := ex.st.cells[cp.C]; !live {
+			continue
+		}
+		if a.Comment == "rangeindex" {
+			// the hidden counter of THIS loop is incremented in its head block
+			for _, ref := range *a.Referrers() {
+				if st, isS := ref.(*ssa.Store); isS && st.Block() == li.head {
+					rangeCell = cp.C
+				}
+			}
+			continue
+		}
+		if ex.monotoneCounter(fr, cp.C, li) && ex.unitStepFromZero(fr, a, li) {
+			counters = append(counters, cp.C)
+		}
+	}
+	ts := ex.ts
+	one := ts.NumLit(bigInt(1), ex.idxSort())
+	if base == "rangeindex" && rangeCell == nil && len(counters) == 1 {
+		if sc, ok := ex.st.cells[counters[0]].(Scalar); ok {
+			t := sc.T
+			if t == nil && sc.Const != nil {
+				t = ts.NumLit(sc.Const, ex.idxSort())
+			}
+			if t != nil && t.S == ex.idxSort() {
+				ex.note("loop clause of " + relName(fr.fn) + " written for the range form: rangeindex read as " + counters[0].Name + " - 1")
+				return Scalar{T: ts.Sub(t, one), Typ: types.Typ[types.Int]}, true
+			}
+		}
+	}
+	if rangeCell != nil && base != "rangeindex" {
+		// the key variable of this range loop (assigned from the hidden counter at the top of the body)
+		if ex.rangeKeyName(fr, li) == base {
+			if sc, ok := ex.st.cells[rangeCell].(Scalar); ok && sc.T != nil && sc.T.S == ex.idxSort() {
+				ex.note("loop clause of " + relName(fr.fn) + " written for the explicit form: " + base + " read as rangeindex + 1")
+				return Scalar{T: ts.Add(sc.T, one), Typ: types.Typ[types.Int]}, true
+			}
+		}
+	}
+	return nil, false
+}
+
+// unitStepFromZero: the only store to a outside the loop (before it) stores the constant 0 and the store inside adds 1.
+func (ex *Exec) unitStepFromZero(fr *Frame, a *ssa.Alloc, li *loopInfo) bool {
+	if a.Referrers() == nil {
+		return false
+	}
+	zeroInit, unit := false, false
+	for _, r := range *a.Referrers() {
+		st, ok := r.(*ssa.Store)
+		if !ok || st.Addr != a {
+			continue
+		}
+		if li.body[st.Block().Index] {
+			if bo, ok := st.Val.(*ssa.BinOp); ok {
+				if k, ok := bo.Y.(*ssa.Const); ok && k.Value != nil && k.Int64() == 1 {
+					unit = true
+					continue
+				}
+			}
+			return false
+		}
+		if k, ok := st.Val.(*ssa.Const); ok && k.Value != nil && k.Int64() == 0 {
+			zeroInit = true
+		} else {
+			return false
+		}
+	}
+	return zeroInit && unit
+}
+
+// rangeKeyName: name of the key variable of the range loop li (the local that receives the hidden counter).
+func (ex *Exec) rangeKeyName(fr *Frame, li *loopInfo) string {
+	for _, b := range fr.fn.Blocks {
+		if !li.body[b.Index] {
+			continue
+		}
+		for _, ins := range b.Instrs {
+			st, ok := ins.(*ssa.Store)
+			if !ok {
+				continue
+			}
+			dst, isA := st.Addr.(*ssa.Alloc)
+			ld, isL := st.Val.(*ssa.UnOp)
+			if !isA || !isL || dst.Comment == "" || dst.Comment == "rangeindex" {
+				continue
+			}
+			if src, ok := ld.X.(*ssa.Alloc); ok && src.Comment == "rangeindex" {
+				return dst.Comment
+			}
+		}
+	}
+	return ""
 }
